@@ -857,7 +857,7 @@ SCENARIOS['C04'] = scen_C04
 def scen_C02(ctx):
     ctx.rule = ('`reopen`: histories cut into 2..4 sessions; between sessions every handle is dropped and the directory is re-opened with '
                 'other parameters (bucket count, buffer modes), alternately in the same process and in a freshly spawned one; after each reopen '
-                'every key, len and a traversal are read (L_api) and the closed files are compared byte-exactly with the model (L_img); distinct = distinct op files')
+                'every key, len and a traversal are read (L_api) and the closed files are compared byte-exactly with the model (L_img); every third history holds several handles of the map in a session (second lookups with and without parameters, through a cloned FileDb), updated through all of them, before all are dropped; distinct = distinct op files')
 
     def one(i):
         g = G.G(ctx.seed, 'C02', i)
@@ -875,6 +875,18 @@ def scen_C02(ctx):
             cur += g.hist(kt, g.rng.randrange(5, ctx.scale(60, 200)), keys=ks, big=0.02)
             if g.rng.random() < 0.3:
                 cur.append('flush m0')
+            if i % 3 == 2:
+                # "every handle is dropped": several handles of the one map in this session - a second lookup by name (with
+                # parameters, or the plain one), one through a cloned FileDb - updates through all of them, some dropped early
+                if g.rng.random() < 0.6:
+                    cur.append(g.rng.choice(['syncall m0', 'dbsyncall d0', 'flush m0']))
+                cur += ['map m1 d0 %s m %s' % (kt, g.rng.choice([g.params(), 'default'])), 'dbclone d1 d0', 'map m2 d1 %s m %s' % (kt, g.params())]
+                for mid in g.rng.sample(['m0', 'm1', 'm2', 'm1', 'm0'], 4):
+                    cur += g.hist(kt, g.rng.randrange(3, 15), keys=ks, big=0.0, mid=mid)
+                    if g.rng.random() < 0.3 and mid != 'm0':
+                        cur += ['get m0 %s' % G.hx(g.rng.choice(ks)), 'len m0']
+                if g.rng.random() < 0.5:
+                    cur += ['drop m1', 'put m2 %s 6c617374' % G.hx(ks[0]), 'get m0 %s' % G.hx(ks[0])]
             cur += ['closeall', 'snap db']
             if sn < nsess - 1 and g.rng.random() < 0.5:
                 segs.append([])         # next session in a new process
@@ -989,7 +1001,8 @@ def structure_history(ctx, g, kt, i, cycles=False, stats_ops=True):
         if stats_ops:
             lines.append('stats m0')
             g.count('stats')
-        lines += [g.rng.choice(['flush', 'syncall', 'syncdata']) + ' m0', 'snap db']
+        # a sync point: through the map or through the database handle (FileDb::sync_all / sync_data walk every open map)
+        lines += [g.rng.choice(['flush m0', 'syncall m0', 'syncdata m0', 'dbsyncall d0', 'dbsyncdata d0']), 'snap db']
         if g.rng.random() < 0.25:
             # "any history" includes closing and re-opening with other creation parameters (they must be ignored)
             lines += ['closeall', 'snap db', 'db d0 db', 'map m0 d0 %s m %s' % (kt, g.params(n=g.rng.choice([1, 4, 8, 32, 128, 1024])))]
@@ -1616,6 +1629,9 @@ def scen_C12(ctx):
             ctx.violation('golden_dotted_%s' % name, 'golden image %s (written by the pinned release) under the map name `%s` - files %s.htx/.key/.val, the released naming: %s\n'
                           'replay: copy /verif/golden/%s/db/gold.* to <dir>/db/%s.* and run the ops below with the harness' % (name, mapname, mapname, bad, name, mapname), ops)
         shutil.rmtree(w, ignore_errors=True)
+    # the 4-byte forms of the variable-length fields (a value of 2 MiB or more: its length; the offsets behind it) are part of
+    # the format: written, closed, and read back in a new process
+    parallel(lambda i: huge_case(ctx, 'C12', i, reopen=True), range(ctx.scale(1, 3)), workers=3)
     dn = ['v1.0', 'img.2024', 'a.b.c', 'x.htx', 'users.v1']
     parallel(dotted, list(enumerate([(n, dn[j % len(dn)]) for j, n in enumerate(names[::3] if ctx.quick else names)])))
     # frozen hash vectors
